@@ -194,6 +194,23 @@ Theorem C11_bare_comment_line_features : forall k c',
 Proof. exact bare_comment_line_features. Qed.
 Print Assumptions C11_bare_comment_line_features.
 
+(* ---- the two known findings, as statements about the model ------------- *)
+
+(* known finding C11-ignore-text-in-string: the pipeline looks at the text of a
+   line, not at its tokens *)
+Theorem C11_ignore_text_in_string_acts : forall c,
+  trailing_hit IGN nm string_literal_line c = true /\ has_any IGN string_literal_line = true.
+Proof. exact ignore_text_in_string_acts. Qed.
+Print Assumptions C11_ignore_text_in_string_acts.
+
+(* known finding C11-splitlines-vs-tokenizer: when splitlines() cuts the
+   tokenizer's line 1 at a form feed, the trailing comment of line 2 is missed *)
+Theorem C11_splitlines_shift_acts : forall c,
+  Suppress.line_ignore IGN nm [ff_line_a ++ [12%N] ++ ff_line_b; ff_line_2] 2 c = Some 1 /\
+  Suppress.line_ignore IGN nm [ff_line_a; ff_line_b; ff_line_2] 2 c = None.
+Proof. exact splitlines_shift_acts. Qed.
+Print Assumptions C11_splitlines_shift_acts.
+
 Example C11_nonvacuous :
   (* line 2 has an undefined_name (3) and an unsupported_operation (9); an own-line
      ignore[undefined_name] before it removes exactly the first, and is used;
